@@ -49,7 +49,7 @@ func NewForEpoch(epoch uint64) *Index {
 
 // Set sets the blocktime for the given slot.
 func (i *Index) Set(slot uint64, time int64) error {
-	if slot < i.start || slot > i.end {
+	if slot < i.start || slot > i.end || slot-i.start >= uint64(len(i.values)) {
 		return NewErrSlotOutOfRange(i.start, i.end, slot)
 	}
 	i.values[slot-i.start] = time
@@ -58,7 +58,7 @@ func (i *Index) Set(slot uint64, time int64) error {
 
 // Get gets the blocktime for the given slot.
 func (i *Index) Get(slot uint64) (int64, error) {
-	if slot < i.start || slot > i.end {
+	if slot < i.start || slot > i.end || slot-i.start >= uint64(len(i.values)) {
 		return 0, NewErrSlotOutOfRange(i.start, i.end, slot)
 	}
 	return i.values[slot-i.start], nil
@@ -178,6 +178,10 @@ func (i *Index) unmarshalBinary(data []byte) error {
 		return fmt.Errorf("failed to read capacity: %w", err)
 	}
 	i.capacity = slottools.Uint64FromLEBytes(capacityBuf)
+	// every block time takes 4 bytes: the capacity cannot exceed what is left of the input
+	if i.capacity > uint64(reader.Len())/4 {
+		return fmt.Errorf("capacity %d exceeds the %d bytes of block times present", i.capacity, reader.Len())
+	}
 
 	i.values = make([]int64, i.capacity)
 	for j := uint64(0); j < i.capacity; j++ {
